@@ -93,6 +93,26 @@ def main():
 
 def detect_and_store(seed_dir, sid, meta, result, checks, patch, demo):
     detection = {}
+    if result["confirmed"] and "--iso" in sys.argv:
+        # detection in scratch copies: /repo is not touched (see tools_seed_iso.py)
+        dst = os.path.join(VERIF, "seeded", sid)
+        os.makedirs(dst, exist_ok=True)
+        shutil.copy(patch, os.path.join(dst, "patch.diff"))
+        shutil.copy(demo, os.path.join(dst, "demo_test.go"))
+        meta["verification"] = result
+        json.dump(meta, open(os.path.join(dst, "meta.json"), "w"), indent=1)
+        import tools_seed_iso
+        hits = tools_seed_iso.evaluate(sid, seeds=(1,), tier="quick", checks=checks)
+        if isinstance(hits, str):
+            print(hits)
+            return 2
+        for h in hits:
+            detection[h["check"]] = {"exit": h["exit"], "detected": h["exit"] == 1, "lines": h["lines"]}
+        meta["checks_run"] = detection
+        meta["what_was_run"] = "scratch worktree: git apply, go build ./..., go test ./... (suite), demo x3 with patch, demo on clean tree; detection: the same patch applied to a second scratch worktree of /repo and ./vcheck <id> quick run from a scratch copy of /verif pointing at it (tools_seed_iso.py)"
+        json.dump(meta, open(os.path.join(dst, "meta.json"), "w"), indent=1)
+        print(json.dumps({"id": sid, "confirmed": True, "verification": result, "detection": {k: v["detected"] for k, v in detection.items()}}, indent=1))
+        return 0
     if result["confirmed"]:
         rc, out = sh("git status --porcelain", REPO)
         if out.strip():
